@@ -1153,6 +1153,8 @@ class Checker:
         if ev.get("what") == "other-activity":
             self.stats["other_instance_callbacks"] = self.stats.get("other_instance_callbacks", 0) + ev.get("callbacks", 0)
             self.stats["other_instance_steps"] = self.stats.get("other_instance_steps", 0) + 1
+        if ev.get("what") == "foreign-trigger-fired":
+            self.rej("C13.send-delivers-to-receiver", f"sm.send(<trigger {ev.get('event')} of another machine>) fired the event on that other machine")
         if ev.get("what") == "bound-trigger-missing":
             self.rej("C13.bound-events", f"bind_events_to did not bind the trigger of declared event {ev.get('event')} on a clash-free target")
 
